@@ -248,3 +248,25 @@ Proof.
     + now apply parse_i16_show.
   - exact I.
 Qed.
+
+(** ** unk.def: category names are written as they are (no quoting); for names without comma, double quote, CR or LF
+    this is the same text, so the rows come back like lexicon rows, in the stored (category) order *)
+Lemma gen_rows_plain_names sc : forall es sets,
+  Forall (fun e => needs_quote (le_surface e) = false) es ->
+  gen_rows sc (fun e => le_surface e) es sets = gen_rows sc (fun e => csv_cell (le_surface e)) es sets.
+Proof.
+  induction es as [|e es IH]; intros sets F; [reflexivity|]. inversion F as [|? ? He F']; subst.
+  cbn [gen_rows]. destruct sets as [|[[w l] r] sets]; [reflexivity|]. rewrite (IH sets F').
+  unfold csv_cell, render_cell. rewrite He. reflexivity.
+Qed.
+
+Theorem unk_roundtrip sc rows sets txt :
+  Forall seed_ok rows -> Forall (fun r => s_surface (l_head r) <> []) rows ->
+  Forall (fun r => needs_quote (s_surface (l_head r)) = false) rows -> Forall ids_ok sets ->
+  gen_rows sc (fun e => le_surface e) (map lentry rows) sets = Ok txt ->
+  parse_lex_csv txt = Ok (map (emitted_entry sc) (combine rows sets)) /\ length (combine rows sets) = length rows.
+Proof.
+  intros Fs Fn Fq Fi H. rewrite gen_rows_plain_names in H.
+  - now apply lex_roundtrip.
+  - clear -Fq. induction Fq as [|r rows Hr _ IH]; [constructor|]. cbn [map]. constructor; [exact Hr|exact IH].
+Qed.
